@@ -91,14 +91,9 @@ PairNames == {"iss", "aud", "exp", "nbf", "priv"}
 
 \* a case: leeway, up to two entries [n, v, o] in claims-dict order (v = Absent: not in the dict)
 Entry(n, v, o) == [n |-> n, v |-> v, o |-> o]
-SingleCases == {[lw |-> lw, e |-> <<Entry(n, v, o)>>] :
-                   lw \in LwSet, n \in Names, v \in UNION {ValsFull(l) : l \in LwSet}, o \in OptsFull}
-PairCases == {[lw |-> lw, e |-> <<Entry(n1, v1, o1), Entry(n2, v2, o2)>>] :
-                   lw \in LwSet, n1 \in PairNames, n2 \in PairNames \ {"iss"},
-                   v1 \in UNION {ValsSmall(l) : l \in LwSet}, v2 \in UNION {ValsSmall(l) : l \in LwSet},
-                   o1 \in OptsSmall, o2 \in OptsSmall}
-Cases == IF Family = "single" THEN SingleCases
-         ELSE {c \in PairCases : c.e[1].n # c.e[2].n}
+\* (cases are enumerated by nested quantifiers in Init: TLC never builds the product set)
+AllValsFull == UNION {ValsFull(l) : l \in LwSet}
+AllValsSmall == UNION {ValsSmall(l) : l \in LwSet}
 
 \* ------------------------------------------------------------------ layer D
 Present(e) == e.v.k # "absent"
@@ -153,7 +148,13 @@ Allowed(c) == IF Hard(c) = {} THEN {"ok"} \cup Soft(c) ELSE Hard(c) \cup (Soft(c
 VARIABLES case, pc, idx, out
 vars == <<case, pc, idx, out>>
 
-Init == case \in Cases /\ pc = "essential" /\ idx = 1 /\ out = "none"
+Init ==
+  /\ pc = "essential" /\ idx = 1 /\ out = "none"
+  /\ \E lw \in LwSet :
+       IF Family = "single"
+       THEN \E n \in Names, v \in AllValsFull, o \in OptsFull : case = [lw |-> lw, e |-> <<Entry(n, v, o)>>]
+       ELSE \E n1 \in PairNames, n2 \in PairNames \ {"iss"}, v1 \in AllValsSmall, v2 \in AllValsSmall, o1 \in OptsSmall, o2 \in OptsSmall :
+              n1 # n2 /\ case = [lw |-> lw, e |-> <<Entry(n1, v1, o1), Entry(n2, v2, o2)>>]
 
 Finish(o) == pc' = "done" /\ out' = o /\ UNCHANGED <<case, idx>>
 
